@@ -1,9 +1,16 @@
 //! C10: whitespace::operations / whitespace::repair against the model.
-//! input  = (sp from to rops g)   from/to as cluster lists from the real CharString
+//! input  = (sp from to rops g kf1 ss)
+//!          from/to as cluster lists from unicode-segmentation (compared with the model's `segment`
+//!          by `agree`); kf1 = the known-finding class flag (string-level premise holds, the
+//!          non-whitespace cluster lists differ); ss = `seam_safe from && seam_safe to` as evaluated
+//!          by harness/src/seam.rs (compared with the model's `seam_safe` by `agree`)
 //! output = (ops? repaired? repaired2?)
 use text_utils::text::clean;
 use text_utils::whitespace::{operations, remove, repair, Operation};
 use vh::*;
+
+#[path = "../seam.rs"]
+mod seam;
 
 struct C10;
 
@@ -28,6 +35,41 @@ fn has_mixed_cluster(s: &str, g: bool) -> bool {
         let ws = c.chars().filter(|c| c.is_whitespace()).count();
         ws > 0 && ws < c.chars().count()
     })
+}
+
+fn nonws_clusters(s: &str, g: bool) -> Vec<String> {
+    vh::split_clusters(s, g)
+        .filter(|c| !c.chars().all(|c| c.is_whitespace()))
+        .map(|c| c.to_string())
+        .collect()
+}
+
+/// the dependent fields: (sp, kf1, ss)
+///   sp  string-level premise of the property, by the real clean / remove, no mixed cluster
+///   kf1 the seam effect of KF1: sp, but the texts differ as lists of non-whitespace clusters
+///   ss  grapheme mode and both texts seam-safe (C10_Seam.v; 0 in code-point mode)
+fn derived(from: &str, to: &str, g: bool) -> (bool, bool, bool) {
+    let sp = clean(from, g) == from
+        && clean(to, g) == to
+        && remove(from, g) == remove(to, g)
+        && !has_mixed_cluster(from, g)
+        && !has_mixed_cluster(to, g);
+    let kf1 = sp && nonws_clusters(from, g) != nonws_clusters(to, g);
+    let ss = g && seam::seam_safe(from) && seam::seam_safe(to);
+    (sp, kf1, ss)
+}
+
+fn mk_input(from: &str, to: &str, rops: Val, g: bool) -> Val {
+    let (sp, kf1, ss) = derived(from, to, g);
+    Val::L(vec![
+        Val::b(sp),
+        Val::clusters(from, g),
+        Val::clusters(to, g),
+        rops,
+        Val::b(g),
+        Val::b(kf1),
+        Val::b(ss),
+    ])
 }
 
 fn word(rng: &mut Rng, seam: bool, ascii_only: bool) -> String {
@@ -101,7 +143,26 @@ impl Prop for C10 {
         let g = rng.chance(1, 2);
         let seam = g && rng.chance(1, 4);
         let stream = rng.below(100);
-        let (from, to) = if stream < 80 {
+        let (from, to) = if g && stream < 12 {
+            // seam probe: a pair of code points of random grapheme categories behind a text that
+            // sets up every look-behind state of the segmenter; the two texts differ in the spaces
+            // next to the pair (the boundary `seam_ok` decides)
+            let (a, b) = seam::seam_pair(rng);
+            let (u, v) = (seam::seam_prefix(rng), seam::seam_suffix(rng));
+            let glued = format!("{u}{a}{b}{v}");
+            let split = format!("{u}{a} {b}{v}");
+            let more = match rng.below(3) {
+                0 if !u.is_empty() => format!("{u} {a}{b}{v}"),
+                1 if !v.is_empty() => format!("{u}{a} {b} {v}"),
+                _ => format!("{u}{a}{b}{v}"),
+            };
+            match rng.below(4) {
+                0 => (split, glued),
+                1 => (glued, split),
+                2 => (split, more),
+                _ => (more, split),
+            }
+        } else if stream < 80 {
             // valid stream: one word sequence, two spacings
             let nw = rng.below(5);
             // one text in five is pure ASCII (the shape on which an `is_ascii()` shortcut would be taken)
@@ -130,23 +191,12 @@ impl Prop for C10 {
         let rops: Vec<Val> = (0..nr)
             .map(|_| Val::I(if keep_only { 0 } else { rng.below(3) as i64 }))
             .collect();
-        let sp = clean(&from, g) == from
-            && clean(&to, g) == to
-            && remove(&from, g) == remove(&to, g)
-            && !has_mixed_cluster(&from, g)
-            && !has_mixed_cluster(&to, g);
-        Val::L(vec![
-            Val::b(sp),
-            Val::clusters(&from, g),
-            Val::clusters(&to, g),
-            Val::L(rops),
-            Val::b(g),
-        ])
+        mk_input(&from, &to, Val::L(rops), g)
     }
 
     fn run(&mut self, input: &Val) -> Option<(Val, Vec<String>)> {
         let l = input.as_l()?;
-        if l.len() != 5 {
+        if l.len() != 7 {
             return None;
         }
         let g = l[4].as_bool()?;
@@ -157,12 +207,8 @@ impl Prop for C10 {
             return None;
         }
         let rops: Vec<Operation> = l[3].as_l()?.iter().map(val_op).collect::<Option<_>>()?;
-        let sp = clean(&from, g) == from
-            && clean(&to, g) == to
-            && remove(&from, g) == remove(&to, g)
-            && !has_mixed_cluster(&from, g)
-            && !has_mixed_cluster(&to, g);
-        if sp != l[0].as_bool()? {
+        let (sp, kf1, ss) = derived(&from, &to, g);
+        if sp != l[0].as_bool()? || kf1 != l[5].as_bool()? || ss != l[6].as_bool()? {
             return None;
         }
         let (f2, t2) = (from.clone(), to.clone());
@@ -181,16 +227,22 @@ impl Prop for C10 {
         if sp {
             tags.push("premise".into());
         }
-        // cluster-level premise: clean on clusters and equal non-whitespace cluster lists
-        let nonws = |s: &str| -> Vec<String> {
-            vh::split_clusters(s, g)
-                .filter(|c| !c.chars().all(|c| c.is_whitespace()))
-                .map(|c| c.to_string())
-                .collect()
-        };
-        let cluster_eq = nonws(&from) == nonws(&to);
-        if sp && !cluster_eq {
-            // the seam effect of KF1: equal after remove() as strings, different as cluster lists
+        // the seam effect of KF1: equal after remove() as strings, different as cluster lists.
+        // Inside the domain of `operations_repair_roundtrip_u` (both texts seam-safe) a failure is
+        // NOT a known finding: the class tag is withheld, so it is reported as a violation; `agree`
+        // additionally flags every case with kf1 && ss as a disagreement.
+        if kf1 {
+            tags.push("kf1".into());
+        }
+        if g && sp && ss {
+            tags.push("seamsafe".into());
+        }
+        if g && sp && !ss {
+            tags.push("seamunsafe".into());
+        }
+        if kf1 && ss {
+            tags.push("seamsafe-kf1".into());
+        } else if kf1 {
             tags.push("class:KF1".into());
         }
         if sp && from != to && from.contains(' ') && to.contains(' ') {
@@ -201,28 +253,19 @@ impl Prop for C10 {
 
     fn canon(&mut self, input: &Val) -> Option<Val> {
         let l = input.as_l()?;
-        if l.len() != 5 {
+        if l.len() != 5 && l.len() != 7 {
             return None;
         }
         let g = l[4].as_bool()?;
         let from = l[1].clusters_to_string()?;
         let to = l[2].clusters_to_string()?;
-        let sp = clean(&from, g) == from
-            && clean(&to, g) == to
-            && remove(&from, g) == remove(&to, g)
-            && !has_mixed_cluster(&from, g)
-            && !has_mixed_cluster(&to, g);
-        Some(Val::L(vec![
-            Val::b(sp),
-            Val::clusters(&from, g),
-            Val::clusters(&to, g),
-            l[3].clone(),
-            Val::b(g),
-        ]))
+        Some(mk_input(&from, &to, l[3].clone(), g))
     }
 
     fn selfcheck(&mut self) -> Vec<String> {
-        ws_table_selfcheck()
+        let mut errs = ws_table_selfcheck();
+        errs.extend(seam::cats_selfcheck());
+        errs
     }
 }
 
